@@ -200,7 +200,7 @@ def gen_table(rng):
                 xs = sl.gen_readings(rng, n=ln, kind=rng.choice(["small", "small", "offset", "fine", "wide"]))
             plain_arrays.append(xs)
             errs = rng.choice([None, None, None, hx(0.0)])
-            table.append(["repeated", [hx(x) for x in xs], errs, rng.choice(["list", "ndarray"])])
+            table.append(["repeated", [hx(x) for x in xs], errs, sl.pick_container(rng, xs, 0.3)])
         elif r < 0.78:
             ln = common_len if rng.random() < 0.8 else rng.choice([2, 3, 4])
             xs = sl.gen_readings(rng, n=ln, kind="small")
